@@ -3,7 +3,7 @@
 (*                                                                                        *)
 (* (a) WRITER HISTORIES.  PickShape / PickKinds choose a bounded table (1..MaxF fields     *)
 (*     over the field kinds, nrows in Rows).  Then either Aprint(s) - one call of           *)
-(*     aprint(table, **s), i.e. ArrayWriter(**s).write(table, **s) - or Open(s) followed by  *)
+(*     aprint(table, keywords s) = ArrayWriter(kw s).write(table, kw s) - or Open(s) followed by  *)
 (*     up to MaxWrites Write(s) and a Close: one action per public call.  Keyword records    *)
 (*     s are drawn from Hamming balls around "no keyword given" (every combination of at     *)
 (*     most WDev / CDev / HDev keywords, every alternative value of each).  The state is     *)
@@ -30,6 +30,7 @@ CONSTANTS MaxF,         \* tables of 1..MaxF fields
           MaxWrites,    \* writes per history
           FixedSticky,  \* TRUE: constructor array_delim sticks (contract); FALSE: the code as found
           Parts,        \* subset of {"aprint", "writer", "b"}
+          DeepAll,      \* TRUE: RefAccepted / CorruptRejected on every history (FALSE: on the aprint histories only)
           DoExport
 
 VARIABLES ph, tab, H, mech, bc
@@ -44,7 +45,7 @@ Kinds == IF Rich THEN KindsRich ELSE KindsBase
 MaxRows == VSetMax(Rows)
 \* three-field tables: one per multiset of kinds would still be many - take those with increasing "size"
 KSize(k) == ATProd(k.shape) * 3 + (IF k.cls = "i" THEN 0 ELSE IF k.cls = "f" THEN 1 ELSE 2)
-KindSeqOK(ks) == Len(ks) < 3 \/ (KSize(ks[1]) < KSize(ks[2]) /\ KSize(ks[2]) # KSize(ks[3]))
+KindSeqOK(ks) == IF Len(ks) < 3 THEN TRUE ELSE (KSize(ks[1]) < KSize(ks[2]) /\ KSize(ks[2]) # KSize(ks[3]))
 
 \* ---------------------------------------------------------------- symbolic keyword records
 SKeys == {"typ", "fancy", "delim", "adelim", "bracket"}                       \* documented for the constructor: they stick
@@ -137,7 +138,7 @@ MSet(m, o) ==
 
 \* ---------------------------------------------------------------- actions
 NoTab == [nrows |-> 0, fields |-> <<>>, nf |-> 0]
-NoH == [entry |-> "none", ctor |-> Resolve(NoTab, Dflt), calls |-> <<>>]
+NoH == [entry |-> "none", target |-> "obj", ctor |-> Resolve(NoTab, Dflt), calls |-> <<>>]
 NoCase == [fn |-> "none"]
 Init == ph = "start" /\ tab = NoTab /\ H = NoH /\ mech = M0 /\ bc = NoCase
 
@@ -151,17 +152,18 @@ PickKinds == /\ ph = "shape"
                               fields |-> [j \in 1..tab.nf |-> [nm |-> Names[j], cls |-> ks[j].cls, sk |-> ks[j].sk, shape |-> ks[j].shape]]]
              /\ ph' = "tab" /\ UNCHANGED <<H, mech, bc>>
 HasArray(t) == \E j \in DOMAIN t.fields : t.fields[j].shape # <<>>
-HistTable(t) == t.nrows = MaxRows /\ HasArray(t) /\ t.nf <= 2
+HistTable(t) == /\ t.nrows = MaxRows /\ HasArray(t) /\ t.nf <= 2
+                /\ (IF Rich \/ t.nf = 1 THEN TRUE ELSE (t.fields[1].cls = "s" /\ t.fields[2].shape # <<>>))
 Call(s) == [tab |-> tab, o |-> Resolve(tab, s)]
 
 Aprint == /\ ph = "tab" /\ "aprint" \in Parts
           /\ \E s \in (IF tab.nrows = MaxRows THEN AprintBig ELSE AprintSmall) :
                 /\ OptFits(tab, s)
-                /\ H' = [entry |-> "aprint", ctor |-> Resolve(tab, s), calls |-> <<Call(s)>>]
+                /\ H' = [entry |-> "aprint", target |-> "obj", ctor |-> Resolve(tab, s), calls |-> <<Call(s)>>]
                 /\ mech' = MSet(MSet(M0, Resolve(tab, s)), Resolve(tab, s))
           /\ ph' = "closed" /\ UNCHANGED <<tab, bc>>
 Open == /\ ph = "tab" /\ "writer" \in Parts /\ HistTable(tab)
-        /\ \E s \in CtorOpts : H' = [entry |-> "writer", ctor |-> Resolve(tab, s), calls |-> <<>>] /\ mech' = MSet(M0, Resolve(tab, s))
+        /\ \E s \in CtorOpts : H' = [entry |-> "writer", target |-> "obj", ctor |-> Resolve(tab, s), calls |-> <<>>] /\ mech' = MSet(M0, Resolve(tab, s))
         /\ ph' = "open" /\ UNCHANGED <<tab, bc>>
 Write == /\ ph = "open" /\ Len(H.calls) < MaxWrites
          /\ \E s \in (IF H.calls = <<>> THEN FirstOpts ELSE LaterOpts) :
@@ -213,7 +215,7 @@ ChooseAhelp == Fam("ahelp") /\ \E nf \in 1..3 : \E nr \in {0, 1, 3} : \E rot \in
                       tab |-> [nrows |-> nr, fields |-> [j \in 1..nf |-> [nm |-> IF long /\ j = nf THEN LongName ELSE Names[j],
                                                                          cls |-> kd(j).cls, sk |-> kd(j).sk, shape |-> kd(j).shape]]]])
 
-ChooseRidx == Fam("ridx") /\ \E imax \in 0..4 : \E n \in 0..5 : \E u \in BOOLEAN : \E src \in {"seed", "rng", "legacy"} :
+ChooseRidx == Fam("ridx") /\ \E imax \in 0..4 : \E n \in 0..5 : \E u \in BOOLEAN : \E src \in {"seed", "rng"} :
                 Emit([fn |-> "ridx", imax |-> imax, n |-> n, unique |-> u, src |-> src])
 ChooseRandind == Fam("randind") /\ \/ \E nmax \in 1..8 : \E n \in {1, 2, 5} : \E long \in BOOLEAN :
                                         Emit([fn |-> "randind", nmax |-> nmax, n |-> n, big |-> FALSE, long |-> long /\ n > 1])
@@ -281,23 +283,27 @@ SynLines(i) ==
                                                   \o (IF r < np THEN " " \o ATBackslashes ELSE "")]]
        ELSE (IF w.hdr = "S" THEN <<Plain(w.hdrtext)>> ELSE IF w.hdr = "T" THEN <<Plain(names(mech.delim, w.fmt))>> ELSE <<>>) \o
             [r \in 1..np |-> [wl(r) EXCEPT !.raw = ATRowStr(wl(r), t, sel, r, mech.delim, mech.adelim, mech.bracket, w.fmt)]] \o trl
-Renderable(i) == ~ATUnconstrained(H, i) /\ ~ATMustReject(H, i) /\ (H.calls[i].o.alt.given => ATAltOK(H.calls[i].tab, H.calls[i].o))
+Renderable(i) == ~ATUnconstrained(H, i) /\ ~ATSelBad(H.calls[i].tab, H.calls[i].o) /\ (H.calls[i].o.alt.given => ATAltOK(H.calls[i].tab, H.calls[i].o))
 WithLines(i, L) == [H EXCEPT !.calls[i] = [tab |-> H.calls[i].tab, o |-> H.calls[i].o, err |-> "none", lines |-> L, stray |-> FALSE]]
+Deep(h) == DeepAll \/ h.entry = "aprint"
 RefAccepted ==
-    (Wrote /\ FixedSticky /\ Renderable(Len(H.calls))) =>
+    (Wrote /\ FixedSticky /\ Deep(H) /\ Renderable(Len(H.calls))) =>
         LET i == Len(H.calls) IN ATFailingCall(WithLines(i, SynLines(i)), i) = {}
-\* non-vacuity of the matcher: a reference rendering with one line dropped, two words swapped or a delimiter changed is rejected
+\* non-vacuity of the matcher: a reference rendering with its first line dropped, a line added, two words of a line
+\* swapped or a character added to a line is rejected
+WordLines(L) == {q \in DOMAIN L : Len(L[q].words) >= 2 /\ L[q].words[1].s # L[q].words[2].s}
 CorruptRejected ==
-    (Wrote /\ FixedSticky /\ Renderable(Len(H.calls))) =>
-        LET i == Len(H.calls)  L == SynLines(i)  t == H.calls[i].tab IN
+    (Wrote /\ FixedSticky /\ Deep(H) /\ Renderable(Len(H.calls))) =>
+        LET i == Len(H.calls)  L == SynLines(i) IN
         /\ L # <<>> => ATFailingCall(WithLines(i, Tail(L)), i) # {}
         /\ ATFailingCall(WithLines(i, L \o <<Plain("x")>>), i) # {}
-        /\ \A q \in DOMAIN L : Len(L[q].words) >= 2 =>
-              LET W == L[q].words
+        /\ WordLines(L) # {} =>
+              LET q == VSetMin(WordLines(L))  W == L[q].words
                   sw == [L EXCEPT ![q].words = [W EXCEPT ![1] = [W[1] EXCEPT !.s = W[2].s], ![2] = [W[2] EXCEPT !.s = W[1].s]]]
               IN ATFailingCall(WithLines(i, sw), i) # {}
-        /\ \A q \in DOMAIN L : L[q].words # <<>> =>
-              ATFailingCall(WithLines(i, [L EXCEPT ![q].raw = @ \o "#", ![q].core = @ \o "#"]), i) # {}
+        /\ {n \in DOMAIN L : L[n].words # <<>>} # {} =>
+              LET z == VSetMax({n \in DOMAIN L : L[n].words # <<>>}) IN
+              ATFailingCall(WithLines(i, [L EXCEPT ![z].raw = @ \o "#", ![z].core = @ \o "#"]), i) # {}
 
 \* ---------------------------------------------------------------- laws of part (b)
 IsCase == ph = "case"
@@ -333,7 +339,7 @@ Export ==
     /\ (DoExport /\ IsCase) => PrintT(<<"BCASE", ToJson(bc)>>)
 \* reference observations for the binding self-test of the trace module (independent of the real code)
 ExportRef ==
-    (DoExport /\ ph = "closed" /\ \A i \in DOMAIN H.calls : Renderable(i) /\ i = Len(H.calls)) =>
+    (DoExport /\ ph = "closed" /\ Len(H.calls) = 1 /\ Renderable(1)) =>
         PrintT(<<"REF", ToJson([entry |-> H.entry, ctor |-> H.ctor,
                                 calls |-> <<[tab |-> H.calls[1].tab, o |-> H.calls[1].o, err |-> "none", lines |-> SynLines(1), stray |-> FALSE]>>])>>)
 =============================================================================
